@@ -10,6 +10,13 @@
 //	       transaction really commits into the same node). The observed sequence of decisions is the script the
 //	       Lean model (Sop.Retry.step) is run on; after every decision both sides print what comes next, the
 //	       iteration count, whether the node locks are held, and the clock.
+//	       Item lock records (items.go): the transaction tracks read / updated / removed / added items and mixes; after
+//	       every decision both sides also print, per tracked item, the lock record in the L2 cache and the tracker's
+//	       entry (Model R-items); other transactions' records are planted / withdrawn, one itemActionTracker.lock call
+//	       per case may be disturbed between its write and its verifying read, a competitor may add a key the
+//	       transaction adds too (the replay of the refetch then fails part-way). Oracle "no lock left behind" after
+//	       EVERY commit attempt: no record under a LockID of the finished transaction and no live node-lock entry is in
+//	       the cache; a follower updating the items it only read and one updating the items it wrote must commit.
 //	table  the in-memory L2 Lock/Unlock/IsLocked against the model's lock table (all-or-nothing, re-entry, TTL).
 //	bound  MEASUREMENTS with the real clock: opposite-order contention, a stalled holder, a holder that never
 //	       unlocks; Commit duration is compared with the model's bound + 2 s, and a follow-up transaction on the
@@ -1548,7 +1555,7 @@ func run(o hx.RunOpts) error {
 	s := hx.NewSession(o, "cases: (loop) a real write transaction over fs backends commits while an L2 decorator under the transaction and its registry "+
 		"decides every lock call of the phase-1 loop from a generated plan (refusals by a real foreign holder, conflicts by a real competitor commit, "+
 		"sector locks reported busy, injected clock advances on a fake sop.Now / fake context deadline); the observed decision sequence is replayed on Sop.Retry.step "+
-		"and next-call / iteration count / locks-held / clock / exit reason are diffed after every decision; (table) random Lock/Unlock/IsLocked sequences on the real in-memory L2 against the model's lock table; "+
+		"and next-call / iteration count / locks-held / clock / exit reason and, per tracked item (read, updated, removed, added), the lock record in the L2 cache and the tracker entry are diffed after every decision; after every commit attempt the L2 cache is listed (no record of the finished transaction, no live node lock) and followers on its read and written items must commit; (table) random Lock/Unlock/IsLocked sequences on the real in-memory L2 against the model's lock table; "+
 		"(bound) wall-clock MEASUREMENTS of Commit under contention against the bound + 2 s. distinct = canonical op-line hash; non-trivial = loop cases with at least two decisions, "+
 		"table cases with a refused multi-key Lock, every measurement")
 	p := hx.NewPrng(o.Seed)
